@@ -273,6 +273,41 @@ func c03Mutations(t ref.Tx, thorough bool) []c03Mut {
 			}
 		}
 	}
+	if thorough {
+		// pairs: two length-carrying words of the same transaction set to hostile values together
+		type wm struct {
+			off  int
+			size int
+			name string
+		}
+		words := []wm{{12, 4, "total-size"}, {16, 4, "data-size"}, {20, 2, "param-count"}}
+		off := 22
+		for i, f := range t.Fields {
+			words = append(words, wm{off + 2, 2, fmt.Sprintf("field%d-size", i)})
+			off += 4 + len(f.Data)
+		}
+		vals := []uint32{0, 1, 0x7FFF, 0xFFFF}
+		for x := 0; x < len(words); x++ {
+			for y := x + 1; y < len(words); y++ {
+				for _, vx := range vals {
+					for _, vy := range vals {
+						b := append([]byte(nil), base...)
+						for _, p := range []struct {
+							w wm
+							v uint32
+						}{{words[x], vx}, {words[y], vy}} {
+							if p.w.size == 4 {
+								binary.BigEndian.PutUint32(b[p.w.off:], p.v)
+							} else {
+								binary.BigEndian.PutUint16(b[p.w.off:], uint16(p.v))
+							}
+						}
+						add(fmt.Sprintf("%s=%d+%s=%d", words[x].name, vx, words[y].name, vy), withTail(b))
+					}
+				}
+			}
+		}
+	}
 	return out
 }
 
